@@ -205,7 +205,7 @@ type cliStats struct {
 	byPlanted                                 [4]atomic.Int64
 	mu                                        sync.Mutex
 	perCmdFormat                              map[string]int
-	f7                                        atomic.Int64
+	f7, timedOut                              atomic.Int64
 	lineGrammarSkipped                        atomic.Int64
 }
 
@@ -251,6 +251,17 @@ func argsFor(cmd, dir, against, format string) []string {
 }
 
 var commands = []string{"build", "lint", "breaking", "format", "format-d"}
+
+// runBuf runs the in-process CLI with buf's own --timeout switched off (0 = no timeout, see the global flag's
+// help): the default of 2m would make the verdict depend on the load of the machine. timedOut reports a run
+// that was nevertheless cut by a deadline; such a run is not an observation of buf's verdict.
+func runBuf(ctx context.Context, args []string) (res bufx.CLIResult, timedOut bool) {
+	res = bufx.RunCLI(ctx, nil, "", append(append([]string(nil), args...), "--timeout", "0")...)
+	if res.ExitCode != 0 && (strings.Contains(res.Stderr, "context deadline exceeded") || strings.Contains(res.Stderr, "context canceled")) {
+		return res, true
+	}
+	return res, false
+}
 
 // truthFromJSON turns the json rendering of a run into the truth the other formats are compared with.
 func truthFromJSON(ps []parsed) []ann {
@@ -314,8 +325,13 @@ func runWorkspace(ctx context.Context, r *evid.Run, st *cliStats, scratch string
 			res := results[format]
 			return cliCase{Workspace: ids, Dir: job.dirName, Files: files, Command: cmd, Args: argsFor(cmd, dir, against, format), Format: format, Exit: res.ExitCode, Stdout: res.Stdout, Stderr: res.Stderr, Note: note}
 		}
+		cut := false
 		for _, format := range fmts {
-			res := bufx.RunCLI(ctx, nil, "", argsFor(cmd, dir, against, format)...)
+			res, timedOut := runBuf(ctx, argsFor(cmd, dir, against, format))
+			if timedOut {
+				cut = true
+				break
+			}
 			results[format] = res
 			r.Eval(1)
 			st.runs.Add(1)
@@ -333,6 +349,11 @@ func runWorkspace(ctx context.Context, r *evid.Run, st *cliStats, scratch string
 				r.Violate(fmt.Sprintf("cli/exit-status/%s/want-%d-got-%d", cmd, want.Exit, res.ExitCode),
 					fmt.Sprintf("buf %s on a workspace with planted problems %v exits %d, the plant model says %d", cmd, ids, res.ExitCode, want.Exit), mk(format, ""))
 			}
+		}
+		if cut {
+			st.timedOut.Add(1)
+			r.Incomplete("a CLI run was cut by a deadline (machine load); that (workspace, command) was not judged")
+			continue
 		}
 		switch cmd {
 		case "format", "format-d":
@@ -429,7 +450,7 @@ func runWorkspace(ctx context.Context, r *evid.Run, st *cliStats, scratch string
 				if strings.HasPrefix(sig, "F7/") {
 					st.f7.Add(1)
 				}
-				r.Violate(sig, fmt.Sprintf("buf %s --error-format %s: output does not parse back: %v", cmd, format, err), mk(format, ""))
+				r.Violate(sig, f7What(sig)+fmt.Sprintf("buf %s --error-format %s: output does not parse back: %v", cmd, format, err), mk(format, ""))
 				continue
 			}
 			if len(got) != len(truth) {
@@ -437,19 +458,16 @@ func runWorkspace(ctx context.Context, r *evid.Run, st *cliStats, scratch string
 				if strings.HasPrefix(sig, "F7/") {
 					st.f7.Add(1)
 				}
-				r.Violate(sig, fmt.Sprintf("buf %s: %s carries %d annotations, json %d", cmd, format, len(got), len(truth)), mk(format, "json: "+jsonDiag))
+				r.Violate(sig, f7What(sig)+fmt.Sprintf("buf %s: %s carries %d annotations, json %d", cmd, format, len(got), len(truth)), mk(format, "json: "+jsonDiag))
 				continue
 			}
-			for i := range truth {
-				st.annotationsCompared.Add(1)
-				if field := agree(format, truth[i], got[i]); field != "" {
-					sig := classify(format, "cli/field/"+format+"/"+field, truth)
-					if strings.HasPrefix(sig, "F7/") {
-						st.f7.Add(1)
-					}
-					r.Violate(sig, fmt.Sprintf("buf %s: %s and json disagree on %s of annotation %d: json %+v, %s %+v", cmd, format, field, i+1, truth[i], format, got[i]), mk(format, "json: "+jsonDiag))
-					break
+			st.annotationsCompared.Add(int64(len(truth)))
+			if kind, i := firstDisagreement(format, truth, got); kind != "" {
+				sig := classify(format, "cli/"+kind+"/"+format, truth)
+				if strings.HasPrefix(sig, "F7/") {
+					st.f7.Add(1)
 				}
+				r.Violate(sig, f7What(sig)+fmt.Sprintf("buf %s: %s and json disagree (%s, annotation %d): json %+v, %s %+v", cmd, format, kind, i+1, truth[i], format, got[i]), mk(format, "json: "+jsonDiag))
 			}
 		}
 	}
@@ -708,7 +726,12 @@ func cliOperational(ctx context.Context, r *evid.Run, st *cliStats, scratch stri
 		for _, cmd := range j.op.Commands {
 			for _, format := range formats {
 				args := j.op.Args(cmd, dir, against, format)
-				res := bufx.RunCLI(ctx, nil, "", args...)
+				res, timedOut := runBuf(ctx, args)
+				if timedOut {
+					st.timedOut.Add(1)
+					r.Incomplete("a CLI run was cut by a deadline (machine load); that operational-error run was not judged")
+					continue
+				}
 				r.Eval(1)
 				st.runs.Add(1)
 				st.opRuns.Add(1)
